@@ -734,6 +734,19 @@ def np_eye(I, a, k):
     return I.st.alloc('rows', {'len': zint(n), 'rows': rows, 'ncols': zint(n)}, name='eye', nd=True)
 
 
+def np_equal(I, a, k):
+    x, y = a[0], a[1]
+    if numkind(x) is not None and numkind(y) is not None:
+        r = Mo.compare(I, ast.Eq(), x, y)
+        return r
+    for u, v in ((x, y), (y, x)):
+        if Mo.is_list(v) and Mo.seq_items(I, v) == [] and numkind(u) is not None:
+            return I.st.alloc('clist', [], nd=True)        # broadcasting a scalar against an empty array: empty
+    if Mo.is_list(x) or Mo.is_list(y):
+        return Mo.elementwise2(I, x, y, lambda p, q: Mo.compare(I, ast.Eq(), p, q))
+    raise Unsupported('numpy.equal(%r, %r)' % (x, y))
+
+
 def np_add_reduce(I, a, k):
     x = a[0]
     if Mo.is_list(x) and x.kind == 'clist':
@@ -903,6 +916,7 @@ def lib_lookup(I, dotted):
         'numpy.ravel': Builtin('numpy.ravel', np_ravel),
         'numpy.flatten': Builtin('numpy.flatten', np_flatten),
         'numpy.squeeze': Builtin('numpy.squeeze', np_squeeze),
+        'numpy.equal': Builtin('numpy.equal', np_equal),
         'numpy.eye': Builtin('numpy.eye', np_eye),
         'numpy.argsort': Builtin('numpy.argsort', np_argsort),
         'numpy.take': Builtin('numpy.take', np_take),
